@@ -119,4 +119,53 @@ theorem mem_allRefs_iff (top : Node) (r : Ref) : r ∈ allRefs top ↔ Valid top
   · intro hv
     exact ⟨r.path, by simp, hv⟩
 
+/-! ### the enumeration has no duplicates -/
+
+theorem nodup_map_range {β : Type} (f : Nat → β) (hf : ∀ a b, f a = f b → a = b) (n : Nat) :
+    ((List.range n).map f).Nodup := by
+  rw [List.Nodup, List.pairwise_map]
+  exact (List.nodup_range (n := n)).imp (fun hne h => hne (hf _ _ h))
+
+mutual
+theorem nodup_refsOf : ∀ (n : Node) (p : List Nat), (refsOf n p).Nodup
+  | .elem nm nss attrs kids, p => by
+    simp only [refsOf]
+    rw [List.nodup_append, List.nodup_append, List.nodup_cons]
+    refine ⟨⟨⟨?_, ?_⟩, ?_, ?_⟩, nodup_refsKids kids p 0, ?_⟩
+    · simp
+    · exact nodup_map_range _ (by intro a b h; injection h with _ h; injection h) _
+    · exact nodup_map_range _ (by intro a b h; injection h with _ h; injection h) _
+    · intro a ha b hb
+      simp only [List.mem_cons, List.mem_map, List.mem_range] at ha hb
+      obtain ⟨j, _, rfl⟩ := hb
+      rcases ha with rfl | ⟨i, _, rfl⟩ <;> simp
+    · intro a ha b hb
+      obtain ⟨j, c, rest, _, hp, _⟩ := (mem_refsKids kids p 0 b).1 hb
+      have hap : a.path = p := by
+        simp only [List.mem_append, List.mem_cons, List.mem_map, List.mem_range] at ha
+        rcases ha with (rfl | ⟨i, _, rfl⟩) | ⟨i, _, rfl⟩ <;> rfl
+      intro hab
+      rw [← hab, hap] at hp
+      have := congrArg List.length hp
+      simp at this
+  | .text, p => by simp [refsOf]
+  | .comment, p => by simp [refsOf]
+  | .pi t, p => by simp [refsOf]
+theorem nodup_refsKids : ∀ (kids : List Node) (p : List Nat) (i : Nat), (refsKids kids p i).Nodup
+  | [], p, i => by simp [refsKids]
+  | k :: ks, p, i => by
+    simp only [refsKids]
+    rw [List.nodup_append]
+    refine ⟨nodup_refsOf k (p ++ [i]), nodup_refsKids ks p (i + 1), ?_⟩
+    intro a ha b hb hab
+    obtain ⟨rest, hpa, _⟩ := (mem_refsOf k (p ++ [i]) a).1 ha
+    obtain ⟨j, c, rest', _, hpb, _⟩ := (mem_refsKids ks p (i + 1) b).1 hb
+    rw [← hab, hpa, List.append_assoc] at hpb
+    have := List.append_cancel_left hpb
+    simp only [List.singleton_append, List.cons.injEq] at this
+    omega
+end
+
+theorem allRefs_nodup (top : Node) : (allRefs top).Nodup := nodup_refsOf top []
+
 end EPV.NodePath
